@@ -479,6 +479,37 @@ def r5_orphans(chk: Check):
     chk.require(sorted(sites) == ["cli.jobs:process", "cli:orphans"], "cli:deletion sites", f"deletion sites of the command line are {sorted(sites)}; expected exactly jobs clean and orphans --clean", "")
 
 
+def r6_job_state(chk: Check):
+    """@state and the clean/kill decision rest on JobInformation.state: DONE / ERROR / RUNNING exactly by the job's own marker files"""
+    from ..dataflow import path_traces
+
+    tree = chk.tree
+    f = tree.func("cli.filter", "JobInformation.state")
+    ts = path_traces(f.node)
+    loc = chk.loc(f.module, f.node)
+
+    def probe(sfx):
+        return (f"(self.path / f'{{self.scriptname}}.{sfx}').is_file()",)
+
+    want = [("done", "return JobState.DONE"), ("failed", "return JobState.ERROR"), ("pid", "return JobState.RUNNING")]
+    ok = len(ts) == 4
+    seen = set()
+    for t in ts:
+        conds = dict(t.conds)
+        if t.end == "return None":
+            ok = ok and all(conds.get(probe(s)[0]) is False for s, _ in want)
+            seen.add("none")
+            continue
+        for i, (sfx, end) in enumerate(want):
+            if t.end == end:
+                ok = ok and conds.get(probe(sfx)[0]) is True and all(conds.get(probe(s2)[0]) is False for s2, _ in want[:i])
+                seen.add(sfx)
+    ok = ok and seen == {"done", "failed", "pid", "none"}
+    chk.require(ok, chk.fkey(f, "state from the job's own markers"),
+                f"JobInformation.state must be DONE / ERROR / RUNNING exactly when <script>.done / .failed / .pid is a file of the job folder (in that order), else None; found {[(t.conds, t.end) for t in ts][:4]}. "
+                "Any other file ending in .done / .failed (written by the task itself) must not make a running job look finished -- `jobs clean` would delete it", loc)
+
+
 RULES = [
     ("R1", "every self attribute read on a filter evaluation path (filter / get) is assigned by the class", r1_definedness),
     ("R2", "token typing of the pyparsing grammar (object identity / aliasing of parse actions): variables are VarExpr, names and constants are text, membership compares text with text, "
@@ -486,5 +517,6 @@ RULES = [
     ("R3", "connectives: `and` = conjunction of both sides, otherwise disjunction; operators chained left to right; whole query parsed", r3_connectives),
     ("R4", "jobs clean / kill decision table over 2880 scenarios (directory, experiment restriction, filter, state, kill, clean, perform, process): rmtree iff selected, finished, clean and perform; "
            "kill iff selected, running, kill, perform and a process; every local read is bound", r4_jobs_clean),
+    ("R6", "JobInformation.state decision table: DONE / ERROR / RUNNING exactly by <script>.done / .failed / .pid being files, in that order", r6_job_state),
     ("R5", "orphans --clean: indexed jobs from every index and backup index with fresh iterators; delete iff clean and unreferenced (= C16.R5); the command line has exactly two deletion sites", r5_orphans),
 ]
